@@ -149,7 +149,7 @@ fn wrap(body: Cmd, errexit: bool, nounset: bool, monitor: bool, syntax_error: bo
 }
 
 fn cases(tier: Tier) -> Vec<Case> {
-    let n = tier.pick(3, 4);
+    let n = tier.pick(4, 4);
     let bases = progs::programs(n);
     let mut out = vec![];
     for base in &bases {
@@ -580,7 +580,7 @@ pub fn run(tier: Tier) -> i32 {
         "evaluations": evals.load(Relaxed) + d_runs.load(Relaxed) + nameless,
         "part_e_nameless_commands_with_failing_redirections": nameless,
         "distinct_nontrivial": nontrivial.load(Relaxed) + d_entered.load(Relaxed),
-        "rule": format!("every C02 program of at most {} nodes, (a) as is with errexit off/on (+ job control on when it contains a pipeline, + a syntax error on a later line for small ones), (b) with each of 13 failure categories (not found; redirection error on regular built-in / function / compound / special built-in / command-wrapped special; read-only assignment prefixed to special / regular / nothing; ${{u?}}; unset under nounset; special built-in usage error, plain and via `command`) planted at every probe position, errexit off/on, (c) errexit toggled mid-script; (c2) 16 environments (subshell, substitution, pipeline element, nested subshell, group in subshell, async list, group) containing a failing non-final command x 10 exempt contexts (if/elif/while/until conditions, and-or operands, negation, functions called from them) and outside any, errexit on/off; every script has an EXIT trap and a final probe. Oracle: refsh + the documented consequences of shell errors; statuses the manual only calls non-zero are compared as non-zero. Non-trivial = a failure is planted or the reference run aborts before the final probe; distinct by script.", tier.pick(3, 4)),
+        "rule": format!("every C02 program of at most {} nodes, (a) as is with errexit off/on (+ job control on when it contains a pipeline, + a syntax error on a later line for small ones), (b) with each of 13 failure categories (not found; redirection error on regular built-in / function / compound / special built-in / command-wrapped special; read-only assignment prefixed to special / regular / nothing; ${{u?}}; unset under nounset; special built-in usage error, plain and via `command`) planted at every probe position, errexit off/on, (c) errexit toggled mid-script; (c2) 16 environments (subshell, substitution, pipeline element, nested subshell, group in subshell, async list, group) containing a failing non-final command x 10 exempt contexts (if/elif/while/until conditions, and-or operands, negation, functions called from them) and outside any, errexit on/off; every script has an EXIT trap and a final probe. Oracle: refsh + the documented consequences of shell errors; statuses the manual only calls non-zero are compared as non-zero. Non-trivial = a failure is planted or the reference run aborts before the final probe; distinct by script.", tier.pick(4, 4)),
         "samples": samples.take(),
         "cases": cs.len(),
         "part_d_trap_vs_abort_scripts": dscripts.len(),
